@@ -39,7 +39,10 @@ LVar == Language("org.verif.var",
           Or("w", NoR) >>),
      Asset("Sa", "Ba", << LetV("subs", Sb("Sa", Var("peers"))) >>,
        << Or("s", Ext(<< Col(Var("subs"), St("w")) >>)),
-          Or("w", Ovr(<< Col(Col(Var("peers"), F("lt")), St("s")), St("s") >>)) >>) >>,
+          Or("w", Ovr(<< Col(Col(Var("peers"), F("lt")), St("s")), St("s") >>)) >>),
+     \* a sibling declaring a variable of the same name with another definition (no shadowing: neither is an ancestor)
+     Asset("Qa", "Ba", << LetV("subs", Col(Var("peers"), F("lt"))) >>,
+       << Or("w", Ovr(<< Col(Var("subs"), St("w")) >>)) >>) >>,
   << AssocMany("Pe", "Ba", "lt", "rt", "Ba") >>)
 
 (* --- defenses, existence steps, tags, TTCs, MITRE meta ---------------------- *)
